@@ -31,7 +31,12 @@ class PrStub:
         m = ctx.model
         rep = [S.model_int(m, z) for z in zs]
         out = list(self._pr.py_optimized_bit_allocation_64(_np.array(rep, dtype=_np.int64)))
-        rep2 = [r * 3 + (1 if r > 0 else -1 if r < 0 else 0) for r in rep]
+        # second representative: same signs and weak order, values renumbered densely (cannot overflow int64)
+        negs = sorted(set(r for r in rep if r < 0))
+        poss = sorted(set(r for r in rep if r > 0))
+        rep2 = [(-(len(negs) - negs.index(r)) if r < 0 else (poss.index(r) + 1 if r > 0 else 0)) for r in rep]
+        if rep2 == rep:
+            rep2 = [2 * r for r in rep2]
         out2 = list(self._pr.py_optimized_bit_allocation_64(_np.array(rep2, dtype=_np.int64)))
         if [int(v) for v in out] != [int(v) for v in out2]:
             raise S.HarnessError("FFI order-invariance contract broken: %s -> %s but %s -> %s" % (rep, out, rep2, out2))
